@@ -184,7 +184,8 @@ func (p *parser) parseBool(n *yaml.Node) *Bool {
 	}
 
 	return &Bool{
-		Value: n.Value == "true",
+		// YAML allows "true", "True" and "TRUE" as bool values
+		Value: strings.EqualFold(n.Value, "true"),
 		Pos:   posAt(n),
 	}
 }
